@@ -111,6 +111,9 @@ def run_case(case, ctx):
             chosen = set()
             if sel:
                 spelled = [respell(n, sel["style"], r) for n in sel["names"]]
+                r.shuffle(spelled)                       # the order (and repetition) of the names given must not matter
+                if r.random() < 0.3:
+                    spelled.append(respell(r.choice(sel["names"]), r.choice(["upper", "lower"]), r))
                 argv += ["--files"] + spelled
                 chosen = set(n.upper() for n in sel["names"])
                 want = [e for e in expected if e["name"] in chosen]
